@@ -42,5 +42,32 @@ theorem C08.gen_sync_execute_done_xor_error (executeRaises prepRaises : Bool) :
   refine ⟨_, C08.gen_sync_execute_reports executeRaises prepRaises, ?_⟩
   cases executeRaises <;> cases prepRaises <;> simp
 
+/-! ## MULTIPROCESSING: the `try` block of the worker's command loop and `_handle_command_result` -/
+
+/-- the command fails inside the worker: `_execute_command` raises, or the result must be uploaded (a feature-group step
+whose data is not a key string and which has initially requested features) and either no location is set or the upload raises -/
+def mpFails (dataIsStr isFG hasRequested locationIsNone executeRaises uploadRaises : Bool) : Bool :=
+  executeRaises || ((!dataIsStr && isFG) && hasRequested && (locationIsNone || uploadRaises))
+
+/-- **every failure inside the worker's `try` is reported and nothing else is**: for all 64 combinations of the oracles the
+block never raises; on failure it calls `set_error`, sends STOP and leaves the loop without putting the step's uuid on the
+result queue; on success it puts the uuid on the result queue exactly once (after the upload, when one is due) and does
+not touch the error cell -/
+theorem C08.gen_mp_worker_reports (dataIsStr isFG hasRequested locationIsNone executeRaises uploadRaises : Bool) :
+    Gen.MpWorker.workerExecuteBlock () () () () () () () () dataIsStr isFG hasRequested locationIsNone executeRaises uploadRaises [] =
+      .ok (if mpFails dataIsStr isFG hasRequested locationIsNone executeRaises uploadRaises then
+             (if executeRaises then [] else ["execute_command"]) ++ ["set_error", "stop_command", "break"]
+           else
+             ["execute_command"] ++ (if (!dataIsStr && isFG) && hasRequested then ["upload_finished_data"] else []) ++ ["put_result"]) := by
+  cases dataIsStr <;> cases isFG <;> cases hasRequested <;> cases locationIsNone <;> cases executeRaises <;> cases uploadRaises <;> rfl
+
+/-- the step's uuid reaches the result queue iff the command did not fail; the error cell is written iff it failed -/
+theorem C08.gen_mp_worker_done_xor_error (dataIsStr isFG hasRequested locationIsNone executeRaises uploadRaises : Bool) :
+    ∃ l, Gen.MpWorker.workerExecuteBlock () () () () () () () () dataIsStr isFG hasRequested locationIsNone executeRaises uploadRaises [] = .ok l ∧
+      ("put_result" ∈ l ↔ mpFails dataIsStr isFG hasRequested locationIsNone executeRaises uploadRaises = false) ∧
+      ("set_error" ∈ l ↔ mpFails dataIsStr isFG hasRequested locationIsNone executeRaises uploadRaises = true) := by
+  refine ⟨_, C08.gen_mp_worker_reports .., ?_⟩
+  cases dataIsStr <;> cases isFG <;> cases hasRequested <;> cases locationIsNone <;> cases executeRaises <;> cases uploadRaises <;> simp [mpFails]
+
 example : Gen.SyncExecute.syncExecuteStep () true false [] =
     .ok ["prepare_execute_step", "prepare_tfs_and_joinstep", "set_error"] := by rfl
